@@ -384,8 +384,11 @@ fn mutate(rng: &mut Rng, b: &mut Vec<u8>) {
     }
 }
 
+/// which op families the generator emits (the IPHC ones once Model/WireIphc.v exists)
+const WITH_IPHC: bool = false;
+
 fn gen_wire_op(rng: &mut Rng) -> String {
-    match rng.below(12) {
+    match rng.below(if WITH_IPHC { 12 } else { 8 }) {
         0 | 1 => {
             let k = if rng.chance(1, 2) { "1" } else { "n" };
             format!(
